@@ -86,6 +86,7 @@ class ClientJitterDrv(_ClientDrv):
 
 
 class ConnectionPoolDrv(Drv):
+    contention = True
     """max 1 connection, set-up latency L, acquire timeout 1 s (poll 0.1 s), idle timeout 1 s; holders keep the
     connection for L (op acquire) or 4L+1.5 s (op acquire_long: waiters time out)."""
     family = "client"
@@ -110,6 +111,7 @@ class ConnectionPoolDrv(Drv):
 
 
 class ConnectionPoolWarmDrv(Drv):
+    contention = True
     """min 2 / max 2 connections created by warmup() at t=0 with set-up latency L; idle timeout 1 s."""
     family = "client"
     covers = ("ConnectionPool",)
@@ -134,6 +136,7 @@ class ConnectionPoolWarmDrv(Drv):
 
 
 class PooledClientDrv(Drv):
+    contention = True
     family = "client"
     covers = ("PooledClient", "ConnectionPool")
     ops = ("request",)
@@ -173,6 +176,7 @@ class ClientShortTimeoutDrv(_ClientDrv):
 
 
 class _PooledVariantDrv(Drv):
+    contention = True
     """PooledClient arms its request timeout AFTER `yield from pool.acquire()`.  These variants make the time to
     obtain a connection exceed the request timeout: (a) set-up latency L of a new connection vs timeout L/2,
     (b) pool of 1 exhausted, the holder keeps the connection (slow / hanging backend) longer than the waiter's
